@@ -13,12 +13,14 @@ RX = 'pmutt.reaction'
 Z = '\x00'
 
 
-def named_species(I, names):
+def named_species(I, names, tag=''):
+    """a species dictionary with symbolic names; ``tag`` tells the objects of several dictionaries with the same names
+    apart (they are different objects to the interpreter as well)"""
     out = {}
     for nm, w in names:
         key = Z + nm
         I.sym_strings[key] = (w, 'text')
-        out[key] = Obj(nm, attrs={'name': key, 'elements': DictV({'A': I.D.sym('el_' + nm)})})
+        out[key] = Obj(nm + tag, attrs={'name': key, 'elements': DictV({'A': I.D.sym('el_' + nm)})})
     return out
 
 
@@ -101,6 +103,12 @@ def check(run, repo):
         'written out that are off by 0.004 ... 1e-6 (a tolerance is not "exact"), symbolic totals off by 1/1000 and '
         '1e-6, compositions that list an element with the count 0, the check called again after the reaction was '
         'changed and on a second reaction; parse_formula called again after the caller modified the first result. '
+        'Round 3: the RING delimiters padded with blanks (\' . \'/\' >> \': the one pair that means something else once '
+        'its blanks are gone, and the one way to use \'.\' next to decimal coefficients) in every print->parse table; one '
+        'text parsed again and again in one process with other dictionaries, classes, delimiters and options, and the RING '
+        'file read again with a second dictionary (nothing is remembered from an earlier call); one reaction printed '
+        'again and again with other delimiters and formats and after a change; tabs as whitespace; compositions that '
+        'list their elements in another order. '
         'ChemkinReaction.from_string is entered with every delimiter pair; the RING reader also reads a file whose last '
         'line has no newline. parse_formula is interpreted on abstract formulas with repeated symbols, missing and '
         'symbolic counts; the regular expressions are decided on the abstract strings by pmv/absre.py.')
@@ -118,7 +126,9 @@ def check(run, repo):
     owner_ts, fn_ts = repo.find_method(ci, 'to_string')
     owner_fs, fn_fs = repo.find_method(ci, 'from_string')
     n = n_padded = 0
-    delims = [('+', '='), ('+', '<=>'), ('.', '>>'), (' + ', ' = '), ('+', ' <=> '), (' & ', '->')]
+    # (' . ', ' >> '): the RING delimiters padded with blanks - the one way to use '.' next to decimal coefficients, and the
+    # one pair that means something else once its blanks are gone
+    delims = [('+', '='), ('+', '<=>'), ('.', '>>'), (' + ', ' = '), ('+', ' <=> '), (' & ', '->'), (' . ', ' >> ')]
     stoichs = [
         ([1, 1], [1], None),
         ([2, 1], [3], [1]),
@@ -165,14 +175,11 @@ def check(run, repo):
                                                           'species_delimiter': sd.strip() or sd,
                                                           'reaction_delimiter': rd.strip() or rd},
                                self_obj=ci, owner=owner_fs)
-        clash = any(isinstance(x, Fr) and x.denominator != 1 and (sd.strip() or sd) in format(float(x), fmt)
-                    for x in rs + ps + (ts or []))
-        if not isinstance(back, Obj):
-            run.fail('TABLE.parse', 'Reaction.from_string',
-                     'delimiter occurs inside a printed coefficient' if clash else 'round trip',
-                     '[%s] parsing the printed reaction %s gives %s' % (label, show(txt, 120), show(back, 80)),
-                     owner_fs.module, fn_fs)
-            continue
+
+        def clash(d):
+            # the species delimiter of the call occurs inside a coefficient as it is printed (the recorded finding)
+            return any(isinstance(x, Fr) and x.denominator != 1 and d in format(float(x), fmt)
+                       for x in rs + ps + (ts or []))
 
         def prec(x):
             # coefficients survive to the printed precision
@@ -182,16 +189,31 @@ def check(run, repo):
         if any(isinstance(x, Fr) and x.denominator > 10 ** 6 for x in rs + ps + (ts or [])):
             label += ' [integer up to rounding noise]'
         sides = (('reactants', R_, rs), ('products', P_, ps), ('transition_state', T_, ts))
-        ok, why = sides_match(I, back, sides, prec)
-        run.check(ok, 'TABLE.roundtrip', 'Reaction.from_string', 'print->parse',
-                  '[%s] printed %s; %s' % (label, show(txt, 160), why), owner_fs.module, fn_fs,
-                  sample='[%s] %s parses back to the same reaction' % (label, show(txt, 120)) if n % 23 == 0 else None)
+        if not isinstance(back, Obj):
+            run.fail('TABLE.parse', 'Reaction.from_string',
+                     'delimiter occurs inside a printed coefficient' if clash(sd.strip() or sd) else 'round trip',
+                     '[%s] parsing the printed reaction %s gives %s' % (label, show(txt, 120), show(back, 80)),
+                     owner_fs.module, fn_fs)
+            if not (clash(sd.strip() or sd) and not clash(sd)):
+                continue
+            # (the blanks around the delimiter keep it apart from the decimal points: the calls with blanks go on)
+        else:
+            ok, why = sides_match(I, back, sides, prec)
+            run.check(ok, 'TABLE.roundtrip', 'Reaction.from_string', 'print->parse',
+                      '[%s] printed %s; %s' % (label, show(txt, 160), why), owner_fs.module, fn_fs,
+                      sample='[%s] %s parses back to the same reaction' % (label, show(txt, 120))
+                      if n % 23 == 0 else None)
         # the delimiters of the call written exactly as they were printed - blanks included - and each of the two
         # trimmed on its own: 'A + B'.split(' + ') is as good a call as 'A + B'.split('+')
         for k_call, (csd, crd) in enumerate(calls):
             back2 = I.call_function(owner_fs.module, fn_fs, [], {'reaction_str': txt, 'species': DictV(dict(sp)),
                                                                'species_delimiter': csd, 'reaction_delimiter': crd},
                                     self_obj=ci, owner=owner_fs)
+            if not isinstance(back2, Obj) and clash(csd):
+                run.fail('TABLE.parse', 'Reaction.from_string', 'delimiter occurs inside a printed coefficient',
+                         '[%s] parsing the printed reaction %s with species_delimiter=%r gives %s'
+                         % (label, show(txt, 120), csd, show(back2, 80)), owner_fs.module, fn_fs)
+                continue
             ok, why = (False, 'gives %s' % show(back2, 80)) if not isinstance(back2, Obj) else \
                 sides_match(I, back2, sides, prec)
             run.check(ok, 'TABLE.roundtrip', 'Reaction.from_string', 'print->parse, delimiters of the call with blanks',
@@ -217,11 +239,9 @@ def check(run, repo):
                                                                 'species_delimiter': sd.strip(),
                                                                 'reaction_delimiter': rd.strip()},
                                    self_obj=ci, owner=owner_fs)
-        ok = isinstance(back, Obj) and get_public(I, back, 'transition_state') is None and \
-            get_public(I, back, 'reactants').items == [sp[k[0]]] and \
-            get_public(I, back, 'products').items == [sp[k[1]], sp[k[2]]] and \
-            all(a.eq(C(b)) for a, b in zip(get_public(I, back, 'reactants_stoich').items +
-                                           get_public(I, back, 'products_stoich').items, (2, 1, 3)))
+        ok = isinstance(back, Obj) and sides_match(I, back, (('reactants', [sp[k[0]]], [2]),
+                                                             ('products', [sp[k[1]], sp[k[2]]], [1, 3]),
+                                                             ('transition_state', [], None)))[0]
         run.check(ok, 'TABLE.roundtrip', 'Reaction.to_string', 'include_TS=False delims=%r/%r' % (sd, rd),
                   'printed without its transition state as %s the reaction parses back to %s'
                   % (show(txt, 120), show(back, 80)), owner_ts.module, fn_ts)
@@ -231,9 +251,10 @@ def check(run, repo):
     owner_ck, fn_ck = repo.find_method(ck, 'from_string')
     run.fn(RX + '.ChemkinReaction.from_string')
     for (sd, rd), (rs, ps, ts) in itertools.product(
-            (('+', '='), (' & ', '->'), ('.', '>>'), ('+', '<=>'), (' + ', ' <=> ')),
+            (('+', '='), (' & ', '->'), ('.', '>>'), ('+', '<=>'), (' + ', ' <=> '), (' . ', ' >> ')),
             (([2, 12], [3], [1]), ([Fr(1, 2), 1], [Fr(5, 4), 10], None))):
-        if '.' in sd and any(isinstance(x, Fr) for x in rs + ps):
+        decimals = any(isinstance(x, Fr) for x in rs + ps)
+        if sd == '.' and decimals:
             continue        # the known clash of '.' with decimal points is reported above
         I = Interp(repo)
         sp = named_species(I, [('r0', 2), ('r1', 3), ('p0', 4), ('p1', 2), ('t0', 5)])
@@ -245,6 +266,8 @@ def check(run, repo):
                             T_ if ts else None, [C(x) for x in ts] if ts else None)
         txt = I.call_method(rxn, 'to_string', [], {'species_delimiter': sd, 'reaction_delimiter': rd})
         for csd, crd in sorted({(sd.strip(), rd.strip()), (sd, rd)}):
+            if csd == '.' and decimals:
+                continue    # (padded with blanks the delimiter is kept apart from the decimal points)
             back = None
             if not isinstance(txt, Raised):
                 back = I.call_function(owner_ck.module, fn_ck, [], {'reaction_str': txt, 'species': DictV(dict(sp)),
@@ -272,6 +295,8 @@ def check(run, repo):
         ('repeated with coefficients', '2' + A + '+0.5' + A + '=' + B, ([kA], [Fr(5, 2)], [kB], [1], None, None)),
         ('blanks everywhere', '  ' + A + '  +   3 ' + B + '   =  ' + TSn + ' = 1.5' + B + '  ',
          ([kA, kB], [1, 3], [kB], [Fr(3, 2)], [kT], [1])),
+        ('tabs and blanks', '\t' + A + '\t+ 3\t' + B + ' \t=\t1.5 \t' + TSn + '\t=' + B + '\t ',
+         ([kA, kB], [1, 3], [kB], [1], [kT], [Fr(3, 2)])),
         ('integer written as decimal', '2.0' + A + '=' + B, ([kA], [2], [kB], [1], None, None)),
         # the repeat goes to the species' own entry, not to whatever was collected last
         ('repeated species with another in between', A + ' + 0.5' + B + ' + 2' + A + ' = ' + B,
@@ -366,7 +391,7 @@ def check(run, repo):
                     ts_, tss_ = get_public(I, r, 'transition_state'), get_public(I, r, 'transition_state_stoich')
                     warned = len(I.warnings) > nw
                     ok = ts_ is None and tss_ is None and warned == rw_ and \
-                        get_public(I, r, 'reactants').items == [sp[kA]] and get_public(I, r, 'products').items == [sp[kB]]
+                        sides_match(I, r, (('reactants', [sp[kA]], [1]), ('products', [sp[kB]], [1])))[0]
                     why = 'must give the reaction without a transition state%s: transition_state=%s, ' \
                           'transition_state_stoich=%s, %s' % (' and warn' if rw_ else ', silently', show(ts_, 60),
                                                               show(tss_, 60), 'warned' if warned else 'no warning')
@@ -375,13 +400,178 @@ def check(run, repo):
     # species given as a list
     r = I.call_function(owner_fs.module, fn_fs, [], {'reaction_str': A + '=' + B,
                                                      'species': ListV([sp[kA], sp[kB]])}, self_obj=ci, owner=owner_fs)
-    run.check(isinstance(r, Obj) and get_public(I, r, 'reactants').items[0] is sp[kA], 'REF.parse', 'Reaction.from_string',
+    run.check(isinstance(r, Obj) and sides_match(I, r, (('reactants', [sp[kA]], [1]), ('products', [sp[kB]], [1]),
+                                                      ('transition_state', [], None)))[0],
+              'REF.parse', 'Reaction.from_string',
               'species list', 'a list of species is not accepted (%s)' % show(r), owner_fs.module, fn_fs)
 
+    parse_history(run, repo, ci, owner_fs, fn_fs)
+    print_history(run, repo, ci, owner_ts, fn_ts, owner_fs, fn_fs)
     literal_names(run, repo, ci, owner_fs, fn_fs)
     ring_reader(run, repo, ci)
     balance(run, repo, ci)
     formulas(run, repo)
+
+
+def parse_history(run, repo, ci, owner_fs, fn_fs):
+    """the parser answers the call it is given: the species come from the dictionary of *this* call, the delimiters and
+    options are those of *this* call - whatever was parsed before in the same process, with the same text"""
+    ck = repo.cls(RX + '.ChemkinReaction')
+    owner_ck, fn_ck = repo.find_method(ck, 'from_string')
+    for kind in ('names written out', 'symbolic names'):
+        I = Interp(repo)
+        if kind == 'symbolic names':
+            keys = list(named_species(I, [('A', 2), ('B', 3), ('C', 2), ('TS', 4)]))
+            f_ = {k: SegStr.field(k, I.sym_strings[k][0], 'text') for k in keys}
+            kA, kB, kC, kT = keys
+            text = f_[kA] + ' + 0.5' + f_[kB] + ' = ' + f_[kT] + ' = ' + f_[kC]
+            swapped = f_[kA] + '+' + f_[kB] + '=' + f_[kC] + '+' + f_[kT] + '=' + f_[kA]
+
+            def mk(tag):
+                return named_species(I, [('A', 2), ('B', 3), ('C', 2), ('TS', 4)], tag)
+        else:
+            kA, kB, kC, kT = keys = ['H2', 'O2', 'H2O', 'H2O_TS']
+            text = 'H2 + 0.5O2 = H2O_TS = H2O'
+            swapped = 'H2+O2=H2O+H2O_TS=H2'
+
+            def mk(tag):
+                return {nm: Obj(nm + tag, attrs={'name': nm, 'elements': DictV({'A': C(1)})}) for nm in keys}
+        d1, d2, d3 = mk(' (1)'), mk(' (2)'), mk(' (3)')
+        for d_ in (d1, d2, d3):
+            for o in d_.values():
+                o.attrs['phase'] = 'G'
+
+        def parse(species, cls=ci, owner=owner_fs, fn=fn_fs, s_=text, **kw):
+            return I.call_function(owner.module, fn, [], dict(kw, reaction_str=s_, species=species),
+                                   self_obj=cls, owner=owner)
+
+        def sides(d_):
+            return (('reactants', [d_[kA], d_[kB]], [1, Fr(1, 2)]), ('products', [d_[kC]], [1]),
+                    ('transition_state', [d_[kT]], [1]))
+
+        def outcome(r, d_, cls=ci):
+            if not isinstance(r, Obj):
+                return False, 'gives %s' % show(r, 80)
+            if r.ci is not cls:
+                return False, 'gives an object of the class %s' % getattr(r.ci, 'name', r.ci)
+            ok, why = sides_match(I, r, sides(d_))
+            if not ok:
+                for nm_, o_ in (('first', d1), ('second', d2), ('third', d3)):
+                    if o_ is not d_ and sides_match(I, r, sides(o_))[0]:
+                        why += ' (these are the species of the %s dictionary)' % nm_
+            return ok, why
+        steps = []
+        r1 = parse(DictV(dict(d1)))
+        steps.append(('first dictionary',) + outcome(r1, d1))
+        r2 = parse(DictV(dict(d2)))
+        ok, why = outcome(r2, d2)
+        steps.append(("a second dictionary with other objects under the same names", ok, why))
+        r = parse(DictV({k: v for k, v in d2.items() if k != kB}))
+        ok = isinstance(r, Raised) and r.exc == 'KeyError'
+        why = 'must raise KeyError, got %s' % show(r, 80)
+        if ok and kind == 'symbolic names':
+            named = named_in_message(I, r, text)
+            ok = named is not None and kB in named and not ({kA, kC, kT} & set(named))
+            why = 'must raise KeyError naming the species; the message names %s' % (
+                'nothing' if not named else sorted(x.strip(Z + '~') for x in set(named)))
+        steps.append(('a dictionary that lacks the second reactant', ok, why))
+        steps.append(('the first dictionary again',) + outcome(parse(DictV(dict(d1))), d1))
+        steps.append(('the species of a third dictionary given as a list',) + outcome(parse(ListV(list(d3.values()))), d3))
+        steps.append(('ChemkinReaction.from_string, second dictionary',) +
+                     outcome(parse(DictV(dict(d2)), ck, owner_ck, fn_ck), d2, ck))
+        steps.append(('Reaction.from_string after ChemkinReaction.from_string, third dictionary',) +
+                     outcome(parse(DictV(dict(d3))), d3))
+        # every result is a reaction of its own: what the caller does to one is not seen in the next
+        ra = parse(DictV(dict(d1)))
+        if isinstance(ra, Obj):
+            set_public(I, ra, 'products_stoich', ListV([C(7)]))
+        rb = parse(DictV(dict(d1)))
+        ok, why = outcome(rb, d1)
+        steps.append(('first dictionary, after the caller changed the coefficients of the reaction parsed before',
+                      ok, why))
+        # the delimiters are those of the call: '=' between the species and '+' between the states is a custom choice
+        r = parse(DictV(dict(d1)), s_=swapped)
+        ok = isinstance(r, Obj) and sides_match(I, r, (('reactants', [d1[kA], d1[kB]], [1, 1]), ('products', [d1[kA]], [1]),
+                                                     ('transition_state', [d1[kC], d1[kT]], [1, 1])))[0]
+        steps.append(("A+B=C+TS=A with the delimiters '+'/'='", ok, 'gives %s' % show(r.attrs if isinstance(r, Obj) else r, 160)))
+        r = parse(DictV(dict(d1)), s_=swapped, species_delimiter='=', reaction_delimiter='+')
+        ok = isinstance(r, Obj) and sides_match(I, r, (('reactants', [d1[kA]], [1]), ('products', [d1[kT], d1[kA]], [1, 1]),
+                                                     ('transition_state', [d1[kB], d1[kC]], [1, 1])))[0]
+        steps.append(("the same text with the delimiters '='/'+': A | B=C | TS=A", ok,
+                      'gives %s' % show(r.attrs if isinstance(r, Obj) else r, 160)))
+        # the options are those of the call: the same text with a transition state that is not in the dictionary
+        no_ts = DictV({k: v for k, v in d1.items() if k != kT})
+        want_no_ts = (('reactants', [d1[kA], d1[kB]], [1, Fr(1, 2)]), ('products', [d1[kC]], [1]),
+                      ('transition_state', [], None))
+        for re_, rw_ in ((False, False), (False, True), (True, True), (False, True), (False, False)):
+            nw = len(I.warnings)
+            r = parse(no_ts, raise_error=re_, raise_warning=rw_)
+            if re_:
+                ok, why = isinstance(r, Raised) and r.exc == 'KeyError', 'must raise KeyError, got %s' % show(r, 80)
+            else:
+                warned = len(I.warnings) > nw
+                ok = isinstance(r, Obj) and sides_match(I, r, want_no_ts)[0] and warned == rw_
+                why = 'must give the reaction without a transition state%s; got %s, %s' % (
+                    ' and warn' if rw_ else ', silently', show(r.attrs if isinstance(r, Obj) else r, 120),
+                    'warned' if warned else 'no warning')
+            steps.append(('transition state missing from the dictionary, raise_error=%s raise_warning=%s' % (re_, rw_), ok, why))
+        steps.append(('the full first dictionary after that',) + outcome(parse(DictV(dict(d1))), d1))
+        for k_step, (what, ok, why) in enumerate(steps):
+            run.check(ok, 'EFFECT.parse-state', 'Reaction.from_string',
+                      'one text parsed again and again, %s: step %d, %s' % (kind, k_step + 1, what),
+                      '%s parsed %d times in one process with different dictionaries, classes, delimiters and options; '
+                      'call %d (%s): %s' % (show(text, 80), len(steps), k_step + 1, what,
+                                            why or 'the species of the dictionary of this call'),
+                      owner_fs.module, fn_fs,
+                      sample='from_string history (%s), call %d: %s' % (kind, k_step + 1, what) if k_step in (1, 3) else None)
+        parser_hazards(run, I, 'parse history', owner_fs.module, fn_fs)
+
+
+def print_history(run, repo, ci, owner_ts, fn_ts, owner_fs, fn_fs):
+    """the printer prints the reaction as it is now with the delimiters and the format of the call, whatever it printed
+    before: one reaction object printed (and parsed back) with one setting after the other, then changed through its
+    public attributes and printed again; a second reaction in between"""
+    I = Interp(repo)
+    sp = named_species(I, [('r0', 2), ('r1', 3), ('p0', 4), ('t0', 5)])
+    k = list(sp)
+    R_, P_, T_ = [sp[k[0]], sp[k[1]]], [sp[k[2]]], [sp[k[3]]]
+    rxn = make_reaction(I, repo, ci, R_, [C(2), C(Fr(1, 2))], P_, [C(Fr(5, 4))], T_, [C(1)])
+    other = make_reaction(I, repo, ci, P_, [C(3)], R_, [C(1), C(Fr(3, 2))], None, None)
+    sides_now = [('reactants', R_, [2, Fr(1, 2)]), ('products', P_, [Fr(5, 4)]), ('transition_state', T_, [1])]
+    sides_other = (('reactants', P_, [3]), ('products', R_, [1, Fr(3, 2)]), ('transition_state', [], None))
+    steps = [(rxn, {}, None), (rxn, {'species_delimiter': ' & ', 'reaction_delimiter': '->'}, None),
+             (rxn, {'species_delimiter': ' . ', 'reaction_delimiter': ' >> ', 'stoich_space': True}, None),
+             (rxn, {'stoich_format': '.3f'}, None),
+             (other, {}, None), (rxn, {}, None),
+             (rxn, {}, ('products_stoich', [Fr(7, 2)])), (rxn, {'species_delimiter': ' & ', 'reaction_delimiter': '->'}, None),
+             (rxn, {'include_TS': False}, None), (other, {'species_delimiter': ' & ', 'reaction_delimiter': '->'}, None),
+             (rxn, {}, ('reactants_stoich', [1, Fr(1, 4)]))]
+    for k_step, (obj, kw, change) in enumerate(steps):
+        if change:
+            set_public(I, obj, change[0], ListV([C(x) for x in change[1]]))
+            sides_now = [(a, o, change[1] if a + '_stoich' == change[0] else v) for a, o, v in sides_now]
+        want = tuple(sides_now) if obj is rxn else sides_other
+        if kw.get('include_TS') is False:
+            want = want[:2] + (('transition_state', [], None),)
+        fmt = kw.get('stoich_format', '.2f')
+
+        def prec(x, fmt=fmt):
+            return C(Fr(format(float(x), fmt))) if isinstance(x, Fr) and x.denominator != 1 else C(x)
+        txt = I.call_method(obj, 'to_string', [], dict(kw))
+        back = txt
+        if not isinstance(txt, Raised):
+            back = I.call_function(owner_fs.module, fn_fs, [], {
+                'reaction_str': txt, 'species': DictV(dict(sp)), 'species_delimiter': kw.get('species_delimiter', '+'),
+                'reaction_delimiter': kw.get('reaction_delimiter', '=')}, self_obj=ci, owner=owner_fs)
+        ok, why = (False, 'gives %s' % show(back, 80)) if not isinstance(back, Obj) else sides_match(I, back, want, prec)
+        what = '%s reaction%s printed with %s' % ('the first' if obj is rxn else 'a second',
+                                                 ', %s set to %s,' % (change[0], [str(x) for x in change[1]]) if change else '',
+                                                 ', '.join('%s=%r' % kv for kv in sorted(kw.items())) or 'the defaults')
+        run.check(ok, 'EFFECT.print-state', 'Reaction.to_string', 'one reaction printed again and again: step %d, %s'
+                  % (k_step + 1, what),
+                  'step %d of %d in one process: %s gives %s, which must parse (with the delimiters of this step) to the '
+                  'reaction as it is now; %s' % (k_step + 1, len(steps), what, show(txt, 120), why), owner_ts.module, fn_ts,
+                  sample='to_string history, step %d: %s' % (k_step + 1, what) if k_step in (2, 6) else None)
 
 
 # species names written out: every kind of character the property allows (letters, digits after the first character,
@@ -402,10 +592,11 @@ def literal_names(run, repo, ci, owner_fs, fn_fs):
     """print->parse with concrete species names: the text goes through the regular expressions as it stands"""
     n = 0
     for (rn, rs, pn, ps, tn, ts), (sd, rd), space in itertools.product(
-            LITERAL_REACTIONS, (('+', '='), (' + ', ' <=> '), ('.', '>>'), (' & ', '->')), (False, True)):
+            LITERAL_REACTIONS, (('+', '='), (' + ', ' <=> '), ('.', '>>'), (' & ', '->'), (' . ', ' >> ')), (False, True)):
         if sd == ' & ' and run.tier != 'thorough':
             continue
-        if sd == '.' and any(isinstance(x, Fr) for x in rs + ps + (ts or [])):
+        decimals = any(isinstance(x, Fr) for x in rs + ps + (ts or []))
+        if sd == '.' and decimals:
             continue                # the known clash of '.' with decimal points is reported by the symbolic rows
         I = Interp(repo)
         sp = {nm: Obj(nm, attrs={'name': nm, 'elements': DictV({'A': C(1)})}) for nm in rn + pn + (tn or [])}
@@ -419,6 +610,8 @@ def literal_names(run, repo, ci, owner_fs, fn_fs):
         n += 1
         sides = (('reactants', R_, rs), ('products', P_, ps), ('transition_state', T_, ts))
         for csd, crd in sorted({(sd.strip(), rd.strip()), (sd, rd)}):
+            if csd == '.' and decimals:
+                continue            # (padded with blanks the delimiter is kept apart from the decimal points)
             back = txt
             if not isinstance(txt, Raised):
                 back = I.call_function(owner_fs.module, fn_fs, [], {'reaction_str': txt, 'species': DictV(dict(sp)),
@@ -442,17 +635,77 @@ def literal_names(run, repo, ci, owner_fs, fn_fs):
             ('2E1+S=1.50E1S', (['E1', 'S'], [2, 1], ['E1S'], [Fr(3, 2)], None, None)),
             ('S+0.50e2=P', (['S', 'e2'], [1, Fr(1, 2)], ['P'], [1], None, None)),
             ('2E2S + 3 E2S  =  P+2S+ S', (['E2S'], [5], ['P', 'S'], [1, 3], None, None)),
-            (' 10E1 + 0.25 e2=E2S=2.5 P ', (['E1', 'e2'], [10, Fr(1, 4)], ['P'], [Fr(5, 2)], ['E2S'], [1]))):
-        r = I.call_function(owner_fs.module, fn_fs, [], {'reaction_str': s_, 'species': DictV(dict(sp))},
+            (' 10E1 + 0.25 e2=E2S=2.5 P ', (['E1', 'e2'], [10, Fr(1, 4)], ['P'], [Fr(5, 2)], ['E2S'], [1])),
+            # the RING delimiters padded with blanks, as one has to write them next to decimal coefficients
+            (('0.5 H2 . 0.25 O2 >> 0.5 H2O', ' . ', ' >> '), (['H2', 'O2'], [Fr(1, 2), Fr(1, 4)], ['H2O'], [Fr(1, 2)],
+                                                             None, None)),
+            (('H2 . 0.50O2 . 1.5 H2 >> H2O_TS >> 2.50H2O', ' . ', ' >> '),
+             (['H2', 'O2'], [Fr(5, 2), Fr(1, 2)], ['H2O'], [Fr(5, 2)], ['H2O_TS'], [1])),
+            # tabs are whitespace as blanks are
+            ('\tH2 +\t0.5\tO2\t=  H2O_TS\t=\tH2O \t', (['H2', 'O2'], [1, Fr(1, 2)], ['H2O'], [1], ['H2O_TS'], [1]))):
+        kw_d = {}
+        if isinstance(s_, tuple):
+            s_, kw_d['species_delimiter'], kw_d['reaction_delimiter'] = s_
+        r = I.call_function(owner_fs.module, fn_fs, [], dict(kw_d, reaction_str=s_, species=DictV(dict(sp))),
                             self_obj=ci, owner=owner_fs)
         ok = isinstance(r, Obj)
         if ok:
             ok = sides_match(I, r, (('reactants', [sp[x] for x in want[0]], want[1]),
                                     ('products', [sp[x] for x in want[2]], want[3]),
                                     ('transition_state', [sp[x] for x in want[4] or []], want[5])))[0]
-        run.check(ok, 'REF.parse', 'Reaction.from_string', 'written out: %s' % s_,
-                  '%r must parse to %s, got %s' % (s_, want, show(r.attrs if isinstance(r, Obj) else r, 200)),
+        run.check(ok, 'REF.parse', 'Reaction.from_string', 'written out: %s' % s_.replace('\t', '\\t'),
+                  '%r%s must parse to %s, got %s' % (s_, ' (delimiters %r/%r)' % (kw_d['species_delimiter'],
+                                                                                kw_d['reaction_delimiter']) if kw_d else '',
+                                                     want, show(r.attrs if isinstance(r, Obj) else r, 200)),
                   owner_fs.module, fn_fs, sample='%r parses to %s' % (s_, want))
+
+
+FILE_PROBES = '''
+def one_shot(filename):
+    with open(filename, 'r') as f_ptr:
+        first = [line for line in f_ptr]
+        second = [line for line in f_ptr]
+    return [len(first), len(second)]
+
+
+def lazy(filename):
+    with open(filename, 'r') as f_ptr:
+        gen = (line for line in f_ptr)
+    try:
+        rest = list(gen)
+    except ValueError:
+        return 'closed'
+    return len(rest)
+'''
+
+
+def file_model(repo):
+    """what the interpreter's model of a text file knows, asked of the model itself with two lines of Python (not of the
+    code under analysis): 'one_shot' - a file is its own iterator, what was read is gone; 'lazy' - a generator expression
+    over a file runs when it is consumed, and a file is closed when its with-block ends. The changes that need these
+    facts (the RING reader looking through the file before reading it; building its reactions lazily and listing them
+    after the block) are seeded only when the model has them, and the gap is listed as undecided until then"""
+    import ast
+    from ..source import Module
+    m = Module('pmv_c14_file_probes', '<c14 probes>', 'pmv_c14_file_probes.py', FILE_PROBES)
+    for st in m.tree.body:
+        if isinstance(st, ast.FunctionDef):
+            m.functions[st.name] = st
+    want = {'one_shot': lambda r: isinstance(r, ListV) and len(r) == 2 and all(
+                isinstance(x, Rat) and x.eq(C(v)) for x, v in zip(r.items, (3, 0))),
+            'lazy': lambda r: r == 'closed'}
+    out = {}
+    from ..xlate import VISITED
+    before = set(VISITED)
+    for name, good in want.items():
+        I = Interp(repo)
+        I.files['probe.txt'] = [SegStr.lit('a\n'), SegStr.lit('b\n'), SegStr.lit('c\n')]
+        try:
+            out[name] = bool(good(I.call_function(m, m.functions[name], ['probe.txt'], {})))
+        except Unsupported:
+            out[name] = False
+    VISITED.intersection_update(before)         # the probes are not functions of the analysed package
+    return out
 
 
 def ring_reader(run, repo, ci):
@@ -463,6 +716,16 @@ def ring_reader(run, repo, ci):
     if fn is None:
         raise AnchorError('pmutt.io.ring.read_reactions not found')
     run.fn('pmutt.io.ring.read_reactions')
+    knows = file_model(repo)
+    for fact, mutant, gap in (
+            ('one_shot', FILE_PEEK_MUTANT, 'a RING reader that iterates over the open file more than once (the model of a '
+                                           'file has no read position)'),
+            ('lazy', FILE_LAZY_MUTANT, 'a RING reader that reads the file after its with-block has ended (the model of a file '
+                                       'is never closed; generator expressions are evaluated where they are written)')):
+        if knows[fact] and mutant not in MUTANTS:
+            MUTANTS.append(mutant)
+        elif not knows[fact]:
+            run.undecided.append(gap)
     for (sd, rd), final_newline in itertools.product((('.', '>>'), ('+', '=')), (True, False)):
         I = Interp(repo)
         sp = named_species(I, [('A', 2), ('B', 3), ('C', 4), ('TS', 4)])
@@ -482,25 +745,46 @@ def ring_reader(run, repo, ci):
         run.check(isinstance(out, Raised) and out.exc == 'KeyError', 'PATH.unknown-species', 'io.ring.read_reactions',
                   label + ' unknown transition state', '[%s] a line whose transition state is not in the species '
                   'dictionary must raise KeyError by default, got %s' % (label, show(out, 80)), m, fn)
-        nw = len(I.warnings)
-        out = I.call_function(m, fn, [], dict(kw, raise_error=False, raise_warning=False))
-        rx = get_public(I, out, 'reactions') if isinstance(out, Obj) else None
-        ok = isinstance(rx, ListV) and len(rx) == 3 and len(I.warnings) == nw
-        why = 'result %s' % show(rx if rx is not None else out, 120)
-        if ok:
-            want = [([sp[kA], sp[kB]], [1, 2], [sp[kC]], [1], None), ([sp[kC]], [1], [sp[kA], sp[kB]], [1, 1], [sp[kT]]),
-                    ([sp[kA]], [1], [sp[kB]], [1], None)]
-            for r_, (wr, wrs, wp, wps, wt) in zip(rx.items, want):
-                gr, gp, gt = (get_public(I, r_, a_) for a_ in ('reactants', 'products', 'transition_state'))
-                grs, gps = get_public(I, r_, 'reactants_stoich'), get_public(I, r_, 'products_stoich')
-                ok = ok and gr.items == wr and gp.items == wp and (gt is None if wt is None else gt.items == wt) and \
-                    all(a_.eq(C(b_)) for a_, b_ in zip(grs.items + gps.items, wrs + wps))
-            why = 'the parsed reactions differ from the lines'
+
+        def read(sp, **opts):
+            nw = len(I.warnings)
+            out = I.call_function(m, fn, [], dict(kw, species=DictV(dict(sp)), **opts))
+            rx = get_public(I, out, 'reactions') if isinstance(out, Obj) else None
+            ok = isinstance(rx, ListV) and len(rx) == 3 and all(isinstance(r_, Obj) for r_ in rx.items) and \
+                (len(I.warnings) > nw) == opts.get('raise_warning', True)
+            why = 'result %s, %s' % (show(rx if rx is not None else out, 120),
+                                     'warned' if len(I.warnings) > nw else 'no warning')
+            if ok:
+                want = [(('reactants', [sp[kA], sp[kB]], [1, 2]), ('products', [sp[kC]], [1]), ('transition_state', [], None)),
+                        (('reactants', [sp[kC]], [1]), ('products', [sp[kA], sp[kB]], [1, 1]),
+                         ('transition_state', [sp[kT]], [1])),
+                        (('reactants', [sp[kA]], [1]), ('products', [sp[kB]], [1]), ('transition_state', [], None))]
+                for k_, (r_, w_) in enumerate(zip(rx.items, want)):
+                    ok_, why_ = sides_match(I, r_, w_)
+                    if not ok_:
+                        ok, why = False, 'reaction %d differs from its line: %s' % (k_ + 1, why_)
+                        break
+            return ok, why
+        ok, why = read(sp, raise_error=False, raise_warning=False)
         run.check(ok, 'REF.parse', 'io.ring.read_reactions', label,
                   '[%s] three of the five lines hold the reaction delimiter: they must come back as three reactions, in '
                   'order, parsed with the delimiters and options of the call (raise_error=False, raise_warning=False: '
                   'the unknown transition state is dropped silently); %s' % (label, why), m, fn,
                   sample='ring.read_reactions [%s]: 5 lines -> 3 reactions' % label)
+        # the same file read again in the same process: with a second dictionary that holds other objects under the
+        # same names (the reactions are made of those), warning about the unknown transition state this time, and
+        # with the first dictionary once more
+        sp2 = named_species(I, [('A', 2), ('B', 3), ('C', 4), ('TS', 4)], ' (2)')
+        for k_, (what, sp_, opts) in enumerate((
+                ('a second dictionary with other objects under the same names', sp2, {'raise_warning': False}),
+                ('the second dictionary, raise_warning=True', sp2, {'raise_warning': True}),
+                ('the first dictionary again', sp, {'raise_warning': False}))):
+            ok, why = read(sp_, raise_error=False, **opts)
+            run.check(ok, 'EFFECT.parse-state', 'io.ring.read_reactions', '%s, file read again: %s' % (label, what),
+                      '[%s] the file read again in the same process (%s): three reactions made of the species of the '
+                      'dictionary of this call%s; %s' % (label, what, ', and a warning about the transition state that is '
+                                                         'not in it' if opts['raise_warning'] else '', why), m, fn,
+                      sample='ring.read_reactions [%s] read again: %s' % (label, what) if k_ == 0 else None)
 
 
 def balance(run, repo, ci):
@@ -511,8 +795,9 @@ def balance(run, repo, ci):
                'products off by a millionth': Fr(-1, 10 ** 6), 'unbalanced': -1,
                'transition state off by a thousandth': Fr(-1, 1000),
                'transition state off by a millionth': Fr(1, 10 ** 6)}
-    balanced_cases = ('balanced',)
-    balanced_ts = (None, 'balanced')
+    # (the order in which a composition lists its elements says nothing about the reaction)
+    balanced_cases = ('balanced', 'the product lists its elements in another order')
+    balanced_ts = (None, 'balanced', 'the transition state lists its elements in another order')
     if counter_model_drops_zero(repo):
         # an element listed with the count 0 (a spreadsheet column) is an element that is not there
         balanced_cases += ('a reactant lists an element with the count zero', 'the product lists an element with the count zero')
@@ -546,6 +831,8 @@ def balance(run, repo, ci):
             pel['E'] = D.sym('e1')
         if case == 'the product lists an element with the count zero':
             pel['Z'] = C(0)
+        if case == 'the product lists its elements in another order':
+            pel = dict(reversed(list(pel.items())))
         p1 = Obj('p1', attrs={'elements': DictV(pel)})
         t_side = None
         if ts_mode:
@@ -557,6 +844,8 @@ def balance(run, repo, ci):
                 del tel['B']
             if ts_mode == 'the transition state lists an element with the count zero':
                 tel['Z'] = C(0)
+            if ts_mode == 'the transition state lists its elements in another order':
+                tel = dict(reversed(list(tel.items())))
             t1 = Obj('t1', attrs={'elements': DictV(tel)})
             t_side = [t1]
         rxn = make_reaction(I, repo, ci, [r1, r2], [n1, n2], [p1], [n3], t_side, [n4] if t_side else None)
@@ -606,6 +895,10 @@ BALANCE_WRITTEN_OUT = [
     ((('C3H6', Fr('0.333333')),), (('CH2', 1),), None, False),
     ((('H2', 1), ('O2', Fr(1, 2))), (('H2O', 1),), (('H2O_TS', Fr('1.000002')),), False),
     ((('H2', 1000), ('O2', 500)), (('H2O', Fr('1000.001')),), None, False),
+    # the elements come in another order on the other side (O, H against H, O)
+    ((('OH', 1), ('H', 1)), (('H2O', 1),), None, True),
+    ((('H', 1), ('OH', 1)), (('OH', 1), ('H', 1)), (('H2O_TS', 1),), True),
+    ((('OH', 1), ('H', 1)), (('H2O', Fr('1.0001')),), None, False),
     # an element listed with the count 0 is an element that is not there
     ((('H2 (all columns)', 1),), (('H', 2),), None, True),
     ((('H2 (all columns)', 1), ('O2', Fr(1, 2))), (('H2O', 1),), None, True),
@@ -637,7 +930,7 @@ def balance_written_out(run, repo, ci, owner, fn):
                   '%s (compositions %s) must be %s; got %s'
                   % (text, {x: FORMULAS[x] for x in names}, 'accepted' if balanced else 'refused with ValueError', show(r)),
                   owner.module, fn, sample='balance: %s -> %s' % (text, 'accepted' if balanced else 'ValueError'))
-    run.floor('balance cases with compositions written out', n, 13)
+    run.floor('balance cases with compositions written out', n, 16)
     if not drops:
         run.undecided.append('compositions that list an element with the count 0 (the model of collections.Counter '
                              'does not drop totals that are zero)')
@@ -827,6 +1120,123 @@ MUTANTS.append(
                 "    elements_tuples = re.findall(r'([A-Z][a-z]*)(\\d*)', formula)\n"
                 "    elements = _FORMULAS[formula] = {}\n"),
                ('pmutt/__init__.py', "def parse_formula(formula):\n", "_FORMULAS = {}\n\n\ndef parse_formula(formula):\n")]})
+# ---- white-box review, round 3 -----------------------------------------------------------------------------------
+MUTANTS += [
+    {'name': 'parser trims the delimiters of the call', 'expect': ('TABLE.roundtrip', 'from_string'),
+     'edits': [(R_, '    # Separate states of reaction\n    reaction_states = reaction_str.split(reaction_delimiter)\n',
+                '    species_delimiter = species_delimiter.strip()\n    reaction_delimiter = reaction_delimiter.strip()\n'
+                '    reaction_states = reaction_str.split(reaction_delimiter)\n')]},
+    {'name': 'parser trims the species delimiter of the call', 'expect': ('TABLE.roundtrip', 'from_string'),
+     'edits': [(R_, '    species_str = reaction_str.split(species_delimiter)\n',
+                '    species_str = reaction_str.split(species_delimiter.strip())\n')]},
+    {'name': 'from_string remembers its reactions whatever the species dictionary',
+     'expect': ('EFFECT.parse-state', 'Reaction.from_string'),
+     'edits': [(R_, 'class Reaction(_pmuttBase):\n', '_FROM_STRING_CACHE = {}\n\n\nclass Reaction(_pmuttBase):\n'),
+               (R_, '            species = pmutt_list_to_dict(species)\n\n        (react_names, react_stoich,',
+                '            species = pmutt_list_to_dict(species)\n\n'
+                '        cache_key = (cls, reaction_str, species_delimiter, reaction_delimiter,\n'
+                '                     raise_error, raise_warning)\n'
+                '        if cache_key in _FROM_STRING_CACHE:\n            return _FROM_STRING_CACHE[cache_key]\n\n'
+                '        (react_names, react_stoich,'),
+               (R_, '        return cls(reactants=reactants,\n                   reactants_stoich=react_stoich,\n'
+                    '                   products=products,\n                   products_stoich=prod_stoich,\n'
+                    '                   transition_state=ts,\n                   transition_state_stoich=ts_stoich,\n'
+                    '                   notes=notes)\n',
+                '        rxn = _FROM_STRING_CACHE[cache_key] = cls(reactants=reactants,\n'
+                '                   reactants_stoich=react_stoich,\n'
+                '                   products=products,\n                   products_stoich=prod_stoich,\n'
+                '                   transition_state=ts,\n                   transition_state_stoich=ts_stoich,\n'
+                '                   notes=notes)\n        return rxn\n')]},
+    {'name': 'from_string remembers its reactions per species dictionary, whatever the delimiters and options',
+     'expect': ('EFFECT.parse-state', 'Reaction.from_string'),
+     'edits': [(R_, 'class Reaction(_pmuttBase):\n', '_FROM_STRING_CACHE = {}\n\n\nclass Reaction(_pmuttBase):\n'),
+               (R_, '            species = pmutt_list_to_dict(species)\n\n        (react_names, react_stoich,',
+                '            species = pmutt_list_to_dict(species)\n\n'
+                '        cache_key = (cls, reaction_str, tuple(species.values()))\n'
+                '        if cache_key in _FROM_STRING_CACHE:\n            return _FROM_STRING_CACHE[cache_key]\n\n'
+                '        (react_names, react_stoich,'),
+               (R_, '        return cls(reactants=reactants,\n                   reactants_stoich=react_stoich,\n'
+                    '                   products=products,\n                   products_stoich=prod_stoich,\n'
+                    '                   transition_state=ts,\n                   transition_state_stoich=ts_stoich,\n'
+                    '                   notes=notes)\n',
+                '        rxn = _FROM_STRING_CACHE[cache_key] = cls(reactants=reactants,\n'
+                '                   reactants_stoich=react_stoich,\n'
+                '                   products=products,\n                   products_stoich=prod_stoich,\n'
+                '                   transition_state=ts,\n                   transition_state_stoich=ts_stoich,\n'
+                '                   notes=notes)\n        return rxn\n')]},
+    {'name': 'RING reader remembers the reactions of a file', 'expect': ('EFFECT.parse-state', 'ring.read_reactions'),
+     'edits': [('pmutt/io/ring.py', '    rxns = []\n    with open(filename',
+                '    if (filename, species_delimiter, reaction_delimiter, raise_error) in _FILES:\n'
+                '        return _FILES[filename, species_delimiter, reaction_delimiter, raise_error]\n'
+                '    rxns = []\n    with open(filename'),
+               ('pmutt/io/ring.py', '    return Reactions(reactions=rxns)\n',
+                '    out = _FILES[filename, species_delimiter, reaction_delimiter, raise_error] = Reactions(reactions=rxns)\n'
+                '    return out\n'),
+               ('pmutt/io/ring.py', 'def read_reactions(filename,', '_FILES = {}\n\n\ndef read_reactions(filename,')]},
+    {'name': 'to_string remembers the text it printed', 'expect': ('EFFECT.print-state', 'to_string'),
+     'edits': [(R_, '        # Write reactants\n        reaction_str = _write_reaction_state(\n'
+                    '            species=self.reactants,\n            stoich=self.reactants_stoich,\n'
+                    '            species_delimiter=species_delimiter,\n            stoich_format=stoich_format,\n',
+                '        if getattr(self, "_printed", None) is not None:\n            return self._printed\n'
+                '        reaction_str = _write_reaction_state(\n'
+                '            species=self.reactants,\n            stoich=self.reactants_stoich,\n'
+                '            species_delimiter=species_delimiter,\n            stoich_format=stoich_format,\n'),
+               (R_, '            stoich_space=stoich_space,\n            key=key)\n        return reaction_str\n',
+                '            stoich_space=stoich_space,\n            key=key)\n        self._printed = reaction_str\n'
+                '        return reaction_str\n')]},
+    {'name': 'to_string remembers the text per delimiters and format', 'expect': ('EFFECT.print-state', 'to_string'),
+     'edits': [(R_, '        # Write reactants\n        reaction_str = _write_reaction_state(\n'
+                    '            species=self.reactants,\n            stoich=self.reactants_stoich,\n'
+                    '            species_delimiter=species_delimiter,\n            stoich_format=stoich_format,\n',
+                '        memo_key = (species_delimiter, reaction_delimiter, stoich_format, include_TS, stoich_space, key)\n'
+                '        if not hasattr(self, "_printed"):\n            self._printed = {}\n'
+                '        if memo_key in self._printed:\n            return self._printed[memo_key]\n'
+                '        reaction_str = _write_reaction_state(\n'
+                '            species=self.reactants,\n            stoich=self.reactants_stoich,\n'
+                '            species_delimiter=species_delimiter,\n            stoich_format=stoich_format,\n'),
+               (R_, '            stoich_space=stoich_space,\n            key=key)\n        return reaction_str\n',
+                '            stoich_space=stoich_space,\n            key=key)\n        self._printed[memo_key] = reaction_str\n'
+                '        return reaction_str\n')]},
+    {'name': 'repeated species added to a (name, coefficient) tuple', 'expect': ('REF.parse', 'from_string'),
+     'edits': [(R_, '        try:\n            i = species.index(specie)\n        except ValueError:\n'
+                    '            species.append(specie)\n            stoichiometry.append(specie_stoich)\n'
+                    '        else:\n            stoichiometry[i] += specie_stoich\n    return (species, stoichiometry)',
+                '        for term in terms:\n            if term[0] == specie:\n                term[1] += specie_stoich\n'
+                '                break\n        else:\n            terms.append((specie, specie_stoich))\n'
+                '    species = [term[0] for term in terms]\n    stoichiometry = [term[1] for term in terms]\n'
+                '    return (species, stoichiometry)'),
+               (R_, '    species = []\n    stoichiometry = []\n    for specie in species_str:',
+                '    terms = []\n    for specie in species_str:')]},
+    {'name': 'element totals compared in the order of their first occurrence', 'expect': ('REF.balance', 'check_element_balance'),
+     'edits': [(R_, '        if reactant_elements != product_elements:\n',
+                '        if list(reactant_elements.items()) != list(product_elements.items()):\n')]},
+    {'name': 'element totals of the transition state compared in the order of their first occurrence',
+     'expect': ('REF.balance', 'check_element_balance'),
+     'edits': [(R_, '            if reactant_elements != TS_elements:\n',
+                '            if list(reactant_elements.items()) != list(TS_elements.items()):\n')]},
+    {'name': 'parser strips blanks only, not tabs', 'expect': ('REF.parse', 'from_string'),
+     'edits': [(R_, "        # Strip spaces for easier searching\n        specie = specie.strip()\n",
+                "        specie = specie.strip(' ')\n"),
+               (R_, '            specie = specie[trim_len:].strip()\n', "            specie = specie[trim_len:].strip(' ')\n")]},
+]
+# armed when the interpreter's model of a file knows what they break (see file_model)
+FILE_PEEK_MUTANT = {
+    'name': 'RING reader looks through the open file before it reads it', 'expect': ('REF.parse', 'ring.read_reactions'),
+    'edits': [('pmutt/io/ring.py', "    with open(filename, 'r') as f_ptr:\n        for line in f_ptr:\n",
+               "    with open(filename, 'r') as f_ptr:\n"
+               "        if not any(reaction_delimiter in line for line in f_ptr):\n"
+               "            print('no reaction in', filename)\n        for line in f_ptr:\n")]}
+FILE_LAZY_MUTANT = {
+    'name': 'RING reader builds its reactions lazily and lists them after the file was closed',
+    'expect': ('', 'ring.read_reactions'),
+    'edits': [('pmutt/io/ring.py', "        for line in f_ptr:\n            # Skip lines that do not have a reaction\n"
+                                   "            if reaction_delimiter not in line:\n                continue\n"
+                                   "            reaction_str = line.replace('\\n', '')\n"
+                                   "            rxn = Reaction.from_string(reaction_str=reaction_str,\n",
+               "        lines = (line for line in f_ptr if reaction_delimiter in line)\n"
+               "    if True:\n        for line in lines:\n"
+               "            reaction_str = line.replace('\\n', '')\n"
+               "            rxn = Reaction.from_string(reaction_str=reaction_str,\n")]}
 # armed together with the instances it needs (see counter_model_drops_zero)
 ZERO_COUNT_MUTANT = {
     'name': 'element totals kept in a plain dict (a count of zero survives)', 'expect': ('REF.balance', 'check_element_balance'),
